@@ -4,6 +4,7 @@ import (
 	"errors"
 
 	storagelog "github.com/nspcc-dev/neofs-node/pkg/local_object_storage/internal/log"
+	"github.com/nspcc-dev/neofs-node/pkg/util/verifhook"
 	"github.com/nspcc-dev/neofs-sdk-go/object"
 	oid "github.com/nspcc-dev/neofs-sdk-go/object/id"
 )
@@ -41,6 +42,7 @@ func (c *cache) put(addr oid.Address, data []byte) error {
 	if err != nil {
 		return err
 	}
+	verifhook.Point("wc.put.afterFile")
 
 	if c.objCounters.Add(addr, objSz) {
 		c.metrics.IncWCObjectCount()
